@@ -16,6 +16,11 @@ SPEC = {
         "AM.Mt.parsers_total",
         # match semantics
         "AM.Mt.matchesValue_spec", "AM.Mt.get_missing", "AM.Mt.matches_spec", "AM.Mt.matcherset_spec",
+        # regular expressions: what "fully anchored" means (AM.Model.MatcherRegex: Den / Search / FullMatch / matchRe)
+        "AM.Mt.nullable_iff", "AM.Mt.deriv_iff", "AM.Mt.matchRe_iff",
+        "AM.Mt.wrapped_search_iff_full_match", "AM.Mt.search_of_full_match",
+        "AM.Mt.lookalike_is_not_anchored", "AM.Mt.search_is_weaker_than_full_match",
+        "AM.Mt.regex_matcher_is_wrapped_search",
     ],
     "engines": [
         {"name": "matcher", "pkg": "./matcher", "search_cases": 40000},
@@ -25,16 +30,23 @@ SPEC = {
             "regex values from a small AST - printed by the real Matcher.String / Matchers.String and parsed back by labels.ParseMatcher(s), parse.Matcher(s), "
             "compat.Matcher(s) in fallback mode), adv (40 %: token soup, edited well-formed text, classic-vs-UTF-8 probes, invalid UTF-8, through all six parsers, "
             "recover + 5 s bound per call; every accepted result is printed and parsed again), match (15 %: matcher lists x label sets, Matchers.Matches, "
-            "Matcher.Matches per matcher, MatcherSet.Matches). A case is non-trivial when it hits a tagged branch (rt:*-branch, adv1/advL agreement classes, "
-            "match:true/false/missing-label/regex); distinct = distinct hash of the case's lines",
+            "Matcher.Matches per matcher, MatcherSet.Matches; regex values from the AST or (40 %) from ~80 shapes that interact with the ^(?:...)$ wrapping: patterns beginning "
+            "with '^(?:' and/or ending with ')$' that are not thereby anchored, explicit ^ / $ at the ends and inside, .* prefixes/suffixes, top-level alternations, nested groups, "
+            "and flag / class / counted / \\A \\z \\b patterns; label values: members of the language, members extended before/after by letters of the alphabet, a line feed or another member, "
+            "other case, one rune short, one rune changed, random). Per (pattern, value) the harness reports Go's regexp verdict on the explicitly anchored expression "
+            "^(?:pattern)$, computed from the Value alone and independently of NewMatcher: that is the spec side `fm`; the driver's derivative matcher must agree with it on its fragment. "
+            "A case is non-trivial when it hits a tagged branch (rt:*-branch, adv1/advL agreement classes, "
+            "match:true/false/missing-label/regex/value-contains-match-only/pattern-*); distinct = distinct hash of the case's lines",
     "assumptions": [
         "strconv.IsPrint is a parameter of the printer model; the theorems hold for every table that does not call LF printable; the driver uses a fixed table "
         "for the harness' rune pool (the harness asserts it against the real strconv.IsPrint) and compares the printer only on strings inside the pool",
         "regexp.Compile is the parameter `compiles`; the driver runs the model with compiles = true and accepts the implementation's answer R (regexp compile error) "
         "where the model reaches NewMatcher (single classic parser) or without comparison (list parsers, parse.Matcher); fallback is then compared through the spec "
         "predicates on the implementation's own outputs only",
-        "regexp matching is the parameter `fm` (pattern matches the whole value); the driver evaluates it with a derivative matcher for the fragment the harness emits "
-        "(literals, QuoteMeta escapes, '.', groups, alternation, one postfix * + ?), Go's regexp being the oracle it is compared with",
+        "regexp matching is the parameter `fm` (pattern matches the whole value). The spec side of the engine is Go's regexp package asked about the explicitly anchored "
+        "expression ^(?:pattern)$ (regexp.Compile + MatchString are trusted as the meaning of the pattern language; the expression is built by the harness, not by the code under test). "
+        "For the fragment literals, QuoteMeta escapes, '.', groups, alternation, one postfix * + ?, and ^ $ anywhere, the driver also evaluates AM.Mt.matchRe "
+        "(proved to decide FullMatch: matchRe_iff; searching the wrapped expression = full match: wrapped_search_iff_full_match) and reports DIFF regex-oracle when the two disagree",
         "reflect.DeepEqual on *labels.Matcher is equality of (Type, Name, Value): the compiled regexp is a function of Value",
         "positions/columns of the UTF-8 lexer and all error texts are dropped: only accept/reject (+ 'regexp error') and the parsed matchers are compared",
         "the single-matcher fallback/UTF-8 parsers of compat refuse input with a leading '{' or trailing '}' before parsing (modelled; classic_only_still_accepted "
